@@ -189,8 +189,23 @@ fn check(id: &str, tier: Tier) -> i32 {
             violations += 1;
             println!("  violation in run {} of {}: {} — {}", f.index, scn.name(), f.violation.class, f.violation.detail);
             let orig_len = f.tape.len();
-            let (small, execs) = shrink(scn.as_ref(), tier, f.index, &f.violation.class, f.tape);
-            let (path, v, _hash) = write_replay(scn.as_ref(), tier, seed, f.index, orig_len, execs, &small);
+            // A run must be a pure function of its tape. Confirm that on a fresh thread first;
+            // if the failure needs what earlier runs of the same worker left behind in the code
+            // under test (a static / thread-local), replay those runs first instead of shrinking.
+            let (small, execs, prelude): (Vec<u64>, u64, Vec<u64>) = if runner::reproduces_isolated(scn.as_ref(), tier, f.index, &f.violation.class, &f.tape, &[]) {
+                let (s, e) = shrink(scn.as_ref(), tier, f.index, &f.violation.class, f.tape);
+                (s, e, vec![])
+            } else {
+                let pre: Vec<(u64, u64)> = f.worker_history.iter().map(|i| (seed, *i)).collect();
+                if runner::reproduces_isolated(scn.as_ref(), tier, f.index, &f.violation.class, &f.tape, &pre) {
+                    println!("  the failure depends on state the tree under test keeps from earlier runs; replay file lists {} prelude run(s)", pre.len());
+                    (f.tape, 0, f.worker_history.clone())
+                } else {
+                    eprintln!("HARNESS-ERROR run {} of {} failed inside the batch but neither in isolation nor after replaying its worker's {} earlier runs", f.index, scn.name(), pre.len());
+                    return 2;
+                }
+            };
+            let (path, v, _hash) = write_replay(scn.as_ref(), tier, seed, f.index, orig_len, execs, &small, &prelude);
             println!("  minimised tape: {} -> {} entries in {} executions; class {}", orig_len, small.len(), execs, v.class);
             // Replay the minimised tape in a fresh process; it must fail the same way.
             let exe = std::env::current_exe().unwrap();
